@@ -82,7 +82,7 @@ Proof.
       as (g''&Eq&_); [simpl; unfold exit_idx; lia | | eauto].
     simpl. split; [unfold opn; simpl; auto|]. split; [unfold entry_idx, exit_idx; lia|].
     unfold jok. simpl. unfold entry_idx, exit_idx. repeat split; try lia; intros; discriminate. }
-  simpl in B.
+  cbn [bs_blocks] in B.
   destruct (raw_run p final g' F V) as ((Gr&R)&Run).
   pose proof (grows_length _ _ _ Gr) as Lg. simpl in Lg.
   pose proof (exit_untouched g' Gr) as XS.
@@ -106,10 +106,12 @@ Proof.
     { intros i. unfold A. destruct (Nat.eqb_spec i fb).
       - subst. rewrite blk_upd_same by auto. simpl. rewrite Sfb. auto.
       - rewrite blk_upd_other by auto. auto. }
-    rewrite blk_reach_blk in B by lia. rewrite B2 in B. simpl in B.
+    rewrite blk_reach_blk in B by lia. rewrite B2 in B.
+    change (b_reach (put_reach (nth_reach res fb) (blk A fb))) with (nth_reach res fb) in B.
     destruct (nth_reach res fb) eqn:Rfb.
     + destruct rn; [|discriminate]. inversion B; subst; clear B.
       rewrite <- RR. symmetry.
+      match goal with |- context [prune ?x] => change x with (upd_nth exit_idx (put_reach true) g2) end.
       apply flagged_run with (fl := fun i => if Nat.eqb i exit_idx then true else nth_reach res i).
       * rewrite upd_nth_length. lia.
       * intros i. destruct (Nat.eqb_spec i exit_idx).
@@ -121,14 +123,14 @@ Proof.
         -- destruct Hs as [Hs|[]]. congruence.
         -- destruct (Nat.eqb_spec i exit_idx).
            ++ subst. rewrite XS in Hs. destruct Hs.
-           ++ eapply Cl'; eauto.
-      * reflexivity.
+           ++ exact (Cl' i Hi Fi s0 Hs Ls).
+      * simpl. exact Ent.
     + inversion B; subst; clear B.
       rewrite <- RR. symmetry.
       apply flagged_run with (fl := nth_reach res); auto.
       * lia.
       * intros i Hi Fi s0 Hs Ls. rewrite SA in Hs. rewrite LA in *.
-        destruct (Nat.eqb_spec i fb); [subst; congruence|]. eapply Cl'; eauto.
+        destruct (Nat.eqb_spec i fb); [subst; congruence|]. exact (Cl' i Hi Fi s0 Hs Ls).
   - inversion B; subst; clear B. rewrite <- RR. symmetry.
     apply flagged_run with (fl := nth_reach res); auto.
 Qed.
